@@ -44,6 +44,9 @@ type mcWriter struct {
 	once     bool // transient failure: only write number failAt is rejected
 	state    int
 	accepted int
+	// cancelled points at the run's "the cancellation is complete" flag; afterCancel counts the writes that begin later
+	cancelled   *bool
+	afterCancel int
 }
 
 func (w *mcWriter) Write(p []byte) (int, error) {
@@ -52,6 +55,9 @@ func (w *mcWriter) Write(p []byte) (int, error) {
 	}
 	*mc.W(&w.state, siteWriter)++
 	w.writes++
+	if w.cancelled != nil && *w.cancelled {
+		w.afterCancel++
+	}
 	if w.failAt > 0 && (w.writes == w.failAt || (w.writes > w.failAt && !w.once)) {
 		e := w.err
 		if e == nil {
